@@ -22,7 +22,7 @@ ASSUMPTIONS = ['messages are modelled by the fields the correlation logic reads'
 EXHAUSTIVE = {'quick': False, 'thorough': False}
 
 
-def seg_pdu(seq_no, transport, ref, total, sseq, piece, ucs2, payload_carrier):
+def seg_pdu(seq_no, transport, ref, total, sseq, piece, ucs2, payload_carrier, src=''):
     """(pdu bytes built independently, expected abstract fields)"""
     data = piece.encode('utf-16-be') if ucs2 else gspec.encode(piece)
     dc = 8 if ucs2 else 0
@@ -38,9 +38,9 @@ def seg_pdu(seq_no, transport, ref, total, sseq, piece, ucs2, payload_carrier):
         body_sm = wire.udh_concat(ref, total, sseq, wide=(transport == 'udh16')) + data
     if payload_carrier:
         tlvs = [(wire.TAG_PAYLOAD, body_sm)] + tlvs
-        body = wire.sm_body(esm_class=esm, data_coding=dc, short_message=b'', tlvs=tlvs)
+        body = wire.sm_body(src=(1, 1, src), esm_class=esm, data_coding=dc, short_message=b'', tlvs=tlvs)
     else:
-        body = wire.sm_body(esm_class=esm, data_coding=dc, short_message=body_sm, tlvs=tlvs)
+        body = wire.sm_body(src=(1, 1, src), esm_class=esm, data_coding=dc, short_message=body_sm, tlvs=tlvs)
     return wire.pdu(wire.DELIVER_SM, 0, seq_no, body)
 
 
@@ -49,7 +49,7 @@ def absmsg(seq_no, ref, total, sseq, piece, payload_carrier):
                      nats(piece), '0' if payload_carrier else '1', '0', '-', '~'])
 
 
-def history(label, messages, order, sig):
+def history(label, messages, order, sig, gaps=None):
     """messages: list of dict(ref, pieces, transport, ucs2, payload); order: list of (msg index, segment index)
     returns list of Case (one per line)"""
     from aiosmpplib.protocol import SmppMessage
@@ -63,9 +63,10 @@ def history(label, messages, order, sig):
         for (mi, si) in order:
             m = messages[mi]
             seq_no += 1
-            now += 3
+            # gaps: time between consecutive segments (quanta of 1/1024 s); the default is a few milliseconds
+            now += (gaps[len(cases) - 1] if gaps and len(cases) - 1 < len(gaps) else 3)
             pdu = seg_pdu(seq_no, m['transport'], m['ref'], len(m['pieces']), si + 1, m['pieces'][si], m['ucs2'],
-                          m['payload'])
+                          m['payload'], m.get('src', ''))
             sim.clock.q = now
             hdr = SmppMessage.parse_header(pdu[:16])
             try:
@@ -97,7 +98,7 @@ def history(label, messages, order, sig):
                     fail = 'message %d (ref %d, %d segments): hook results %s' % (mi, m['ref'], len(segs), kinds[:12])
                 elif got[mi][-1][1] != full:
                     fail = 'message %d reassembled to %r instead of %r' % (mi, got[mi][-1][1][:60], full[:60])
-        cases.append(Case(ln, out, sig, fail, {'op': 'history', 'label': label,
+        cases.append(Case(ln, out, sig, fail, {'op': 'history', 'label': label, 'gaps': gaps,
                                                'messages': messages, 'order': [list(o) for o in order]}))
     finally:
         sim.close()
@@ -193,6 +194,35 @@ def generate(rng, tier):
         rng.shuffle(idx)
         order = [(0, s2) for s2 in idx]
         yield from history('boundary-ref', msgs, order, (tr, ucs2, False, n, 1, 'ref%d' % ref, False))
+    # 3d. senders and references whose decimal notations run into each other (38599 + 12 / 385991 + 2 / 3859 + 912 ...):
+    #     different references, so different messages, whoever sends them
+    for _ in range(30 if thorough else 10):
+        pool = [('38599', 12), ('385991', 2), ('3859', 912), ('38', 59912), ('3', 859912 % 65536)]
+        rng.shuffle(pool)
+        k = rng.choice((2, 3))
+        msgs = []
+        for (num, ref) in pool[:k]:
+            n = rng.randrange(2, 6)
+            ucs2 = rng.random() < 0.5
+            msgs.append(dict(ref=ref, pieces=mk_pieces(n, ucs2, rng, 'plain'), transport=rng.choice(('sar', 'udh16')), ucs2=ucs2,
+                             payload=False, src=num))
+        order = [(j, s2) for j, m in enumerate(msgs) for s2 in range(len(m['pieces']))]
+        rng.shuffle(order)
+        yield from history('senders', msgs, order, ('senders', k, order_class(order)))
+    # 3e. a long pause between two segments of one message (longer than the response time-to-live of 15 s, far below the
+    #     delivery time-to-live of 100 s): an SMSC retrying one segment
+    for _ in range(30 if thorough else 10):
+        n = rng.randrange(2, 6)
+        tr = rng.choice(transports)
+        ucs2 = rng.random() < 0.5
+        ref = {'sar': 77, 'udh8': 78, 'udh16': 7900}[tr]
+        msgs = [dict(ref=ref, pieces=mk_pieces(n, ucs2, rng, 'plain'), transport=tr, ucs2=ucs2, payload=False)]
+        idx = list(range(n))
+        rng.shuffle(idx)
+        order = [(0, s2) for s2 in idx]
+        gaps = [3] * n
+        gaps[rng.randrange(1, n)] = rng.choice((16 * Q, 20 * Q, 40 * Q))
+        yield from history('pause', msgs, order, ('pause', tr, ucs2, n), gaps)
     # 4. duplicates (outside the statement; correspondence only)
     for _ in range(40 if thorough else 15):
         n = rng.randrange(2, 6)
@@ -203,7 +233,7 @@ def generate(rng, tier):
 
 
 def replay(inp):
-    cases = history(inp['label'], inp['messages'], [tuple(o) for o in inp['order']], None)
+    cases = history(inp['label'], inp['messages'], [tuple(o) for o in inp['order']], None, inp.get('gaps'))
     last = cases[-1]
     # replay shows the whole history as one line block
     last.line = '\n'.join(c.line for c in cases)
